@@ -281,11 +281,50 @@ static void widths_and_root_case(int rootrep, int nested) {
     carquet_reader_close(rd); free(x); ref_buf_free(&img);
 }
 
+/* one leaf below a chain of depth-1 groups (plus a sibling leaf next to the deepest group): column paths of 1..100 parts, levels up to 100 */
+static void chain_case(int depth, int cyc, int tail) {
+    char desc[96]; snprintf(desc, sizeof desc, "c17:chain;depth=%d;labels=%d;sibling=%d", depth, cyc, tail); char key[96];
+    int n = 1 + depth + (tail && depth > 1 ? 1 : 0); ref_schema_elem* sc = ref_alloc(&RA, sizeof(ref_schema_elem) * (size_t)n); memset(sc, 0, sizeof(ref_schema_elem) * (size_t)n);
+    static char names[128][8]; int D = 0, R = 0, Dt = 0, Rt = 0, ns = 0; bool sib = tail && depth > 1;
+    sc[ns].name = (ref_bin){ (const uint8_t*)"schema", 6, true }; sc[ns].has_num_children = true; sc[ns].num_children = 1; ns++;
+    for (int i = 1; i <= depth; i++) {
+        ref_schema_elem* e = &sc[ns++]; snprintf(names[i], 8, i == depth ? "v%d" : "g%d", i); e->name = (ref_bin){ (const uint8_t*)names[i], (int32_t)strlen(names[i]), true };
+        int rep = cyc == 0 ? 1 : cyc == 1 ? (i % 3 == 1 ? 1 : i % 3 == 2 ? 2 : 0) : cyc == 2 ? 0 : 2; e->has_rep = true; e->rep = rep; if (rep == 1) D++; else if (rep == 2) { D++; R++; }
+        if (i < depth) { e->has_num_children = true; e->num_children = (i == depth - 1 && sib) ? 2 : 1; if (i == depth - 1) { Dt = D; Rt = R; } } else { e->has_type = true; e->type = PT_INT32; }
+    }
+    if (sib) { ref_schema_elem* e = &sc[ns++]; e->name = (ref_bin){ (const uint8_t*)"t", 1, true }; e->has_rep = true; e->rep = 1; e->has_type = true; e->type = PT_INT64; Dt++; }
+    int nleaf = sib ? 2 : 1; ref_coldata* cols = ref_alloc(&RA, sizeof(ref_coldata) * 2); ref_chunk_layout* L = ref_alloc(&RA, sizeof(ref_chunk_layout) * 2); memset(L, 0, sizeof(ref_chunk_layout) * 2);
+    fill_col(&cols[0], PT_INT32, 0, D, R, 0); if (sib) fill_col(&cols[1], PT_INT64, 0, Dt, Rt, 1); for (int l = 0; l < nleaf; l++) { L[l].crc = true; L[l].level_form = REF_H_MIXED; }
+    int64_t rows = 2; ref_write_req rq; memset(&rq, 0, sizeof rq); rq.schema = sc; rq.nschema = ns; rq.nleaves = nleaf; rq.nrg = 1; rq.rg_rows = &rows; rq.cols = cols; rq.layouts = L; rq.fl.created_by = "ref_pq";
+    ref_buf img; ref_buf_init(&img); if (ref_pq_write(&RA, &rq, &img, NULL, 0, NULL)) mc_harness_error("reference writer failed (%s)", desc);
+    ref_file rf; if (ref_pq_read(&RA, img.p, img.n, &rf, REF_RD_CHECK_TOTALS)) mc_harness_error("reference reader rejects the reference file: %s (%s)", rf.err, desc);
+    uint8_t* x = mc_exact(img.p, img.n); carquet_error_t err = CARQUET_ERROR_INIT; carquet_reader_t* rd = carquet_reader_open_buffer(x, img.n, NULL, &err);
+    if (!rd) { snprintf(key, sizeof key, "chain.open-failed.%s", depth >= 64 ? "depth-64-to-100" : "depth-below-64"); mc_fail(key, "%s: code %d %s", desc, err.code, err.message); free(x); ref_buf_free(&img); return; }
+    const carquet_schema_t* s = carquet_reader_schema(rd);
+    if (carquet_schema_num_columns(s) != nleaf || carquet_schema_num_elements(s) != ns) mc_fail("chain.counts", "%s: %d columns / %d elements, file has %d / %d", desc, carquet_schema_num_columns(s), carquet_schema_num_elements(s), nleaf, ns);
+    else {
+        int d = 0, r = 0;
+        for (int i = 1; i < ns; i++) { const carquet_schema_node_t* nd = carquet_schema_get_element(s, i); if (!nd) { mc_fail("chain.element-missing", "%s: element %d", desc, i); continue; }
+            bool isleaf = sc[i].has_type; int wd, wr; if (i <= depth) { if (sc[i].rep == 1) d++; else if (sc[i].rep == 2) { d++; r++; } wd = d; wr = r; } else { wd = Dt; wr = Rt; }
+            if (strcmp(carquet_schema_node_name(nd), (const char*)sc[i].name.p) || carquet_schema_node_is_leaf(nd) != isleaf || (int)carquet_schema_node_repetition(nd) != sc[i].rep) mc_fail("chain.element", "%s: element %d: name %s leaf %d repetition %d", desc, i, carquet_schema_node_name(nd), carquet_schema_node_is_leaf(nd), (int)carquet_schema_node_repetition(nd));
+            if (carquet_schema_node_max_def_level(nd) != wd || carquet_schema_node_max_rep_level(nd) != wr) { snprintf(key, sizeof key, "chain.levels.%s", isleaf ? "leaf" : "group"); mc_fail(key, "%s: element %d reports levels %d/%d, the path has %d/%d", desc, i, carquet_schema_node_max_def_level(nd), carquet_schema_node_max_rep_level(nd), wd, wr); } }
+        for (int l = 0; l < nleaf; l++) {
+            const char* nm = l ? "t" : names[depth]; if (carquet_schema_find_column(s, nm) != l) mc_fail("chain.find-column", "%s: find_column(%s) = %d", desc, nm, carquet_schema_find_column(s, nm));
+            carquet_column_reader_t* cr = carquet_reader_get_column(rd, 0, l, &err); if (!cr) { mc_fail("chain.column-open-failed", "%s: leaf %d code %d %s", desc, l, err.code, err.message); continue; }
+            const ref_coldata* c = &cols[l]; int w = l ? 8 : 4; uint8_t* vb = mc_exact(NULL, (size_t)w * 5); int16_t* db = mc_exact(NULL, 10); int16_t* rb = mc_exact(NULL, 10);
+            int64_t got = carquet_column_read_batch(cr, vb, 5, db, rb); bool ok = got == c->nlevels; for (int64_t i = 0; ok && i < got; i++) ok = db[i] == c->def[i] && rb[i] == c->rep[i]; if (ok) ok = !memcmp(vb, c->fixed, (size_t)c->nvalues * (size_t)w);
+            if (!ok) { snprintf(key, sizeof key, "chain.leaf-decodes-wrong.%s", c->max_def >= 64 ? "levels-64-to-100" : c->max_def >= 16 ? "levels-16-to-63" : "levels-below-16"); mc_fail(key, "%s: leaf %d (max_def %d, max_rep %d): read_batch = %lld of %lld, first def/rep %d/%d", desc, l, c->max_def, c->max_rep, (long long)got, (long long)c->nlevels, got > 0 ? db[0] : -1, got > 0 ? rb[0] : -1); }
+            free(vb); free(db); free(rb); carquet_column_reader_free(cr);
+        }
+    }
+    carquet_reader_close(rd); free(x); ref_buf_free(&img);
+}
+
 static void enumerate(void) {
     mc_rule("C17: every ordered rooted tree with up to 6 (quick) / 7 (thorough) nodes x every labeling of the non-root nodes by {REQUIRED, OPTIONAL, REPEATED} x {unique, colliding, prefix-of-an-earlier-leaf} names, written by the reference writer with rows whose levels are at "
             "their maxima (leaf types cycle through the 8 physical types). Oracle = textbook definition computed on the tree: leaves in DFS order, max_def = optional+repeated nodes on the path, max_rep = repeated nodes; element accessors; "
             "find_column; the levels carquet reports AND the levels it uses (read_batch must return the stored levels and values). Builder: a group added as element {1,2,7,31,62..66,100,126..130,254..258,510..514,1023..1025} (the element array grows at 64,128,...) x 3 repetitions; 19 logical types (every TIME/TIMESTAMP unit x UTC flag, decimals, integers) through reference-written footers (flat and nested) and through the builder + writer; add_column sequences of length {0,1,2,63,64,65,127,128,129,1000} x 4 repetition modes x 9 type modes, "
-            "accessors compared, and the file the writer produces from the schema read back by the reference reader. Non-trivial = every case; distinct by (tree, labeling, naming) key.");
+            "accessors compared; one leaf below a chain of 0..99 groups (column paths of 1..100 parts, the parser's cap; 4 labelings, with and without a sibling leaf); and the file the writer produces from the schema read back by the reference reader. Non-trivial = every case; distinct by (tree, labeling, naming) key.");
     int NT = mc_thorough() ? 8 : 7;
     mc_stage("trees.all-shapes.all-labelings");
     for (int n = 1; n <= NT; n++) trees(n, 0, 0, 0, on_tree, NULL);
@@ -308,6 +347,12 @@ static void enumerate(void) {
         if (!mc_next()) continue;
         mc_desc("c17:flba-widths;root-repetition=%d;nested=%d", rootrep, nested); mc_case_key(mc_mix(0x17e, ((uint64_t)(rootrep + 1) << 4) | (uint64_t)nested)); mc_nontrivial();
         widths_and_root_case(rootrep, nested); ref_arena_free(&RA);
+    }
+    mc_stage("file.deep-chains.depth-1-to-100");
+    for (int depth = 1; depth <= 100; depth++) for (int cyc = 0; cyc < 4; cyc++) for (int tail = 0; tail < 2; tail++) {
+        if (!mc_next()) continue;
+        mc_desc("c17:chain;depth=%d;labels=%d;sibling=%d", depth, cyc, tail); mc_case_key(mc_mix(0x17f, ((uint64_t)depth << 8) | ((uint64_t)cyc << 1) | (uint64_t)tail)); mc_nontrivial();
+        chain_case(depth, cyc, tail); ref_arena_free(&RA);
     }
     mc_stage("logical-types.every-type.every-unit.flat-and-nested");
     for (int first = 0; first < NLT; first++) for (int count = 1; count <= (mc_thorough() ? NLT : 3); count += (count < 3 ? 1 : NLT - 3)) for (int nested = 0; nested < 2; nested++) {
